@@ -151,3 +151,327 @@ def run_lockstep(pid, tier, slices=None, write_evidence=True):
 
 
 RUNNERS = {'lockstep': run_lockstep}
+
+
+# =================================================================================================
+# C15: copies and moves -- differential against the original rebuilt by replay, no model involved
+class CopyPeer:
+    def __init__(self, exe):
+        import subprocess
+        self.p = subprocess.Popen([exe, 'servecopy'], stdin=subprocess.PIPE, stdout=subprocess.PIPE, text=True, bufsize=1)
+
+    def run(self, hist):
+        req = '|'.join(f'{op},{ev},' + ';'.join(f'{k}={v}' for k, v in sorted(lm.items())) for op, ev, lm in hist) or '-'
+        self.p.stdin.write(req + '\n')
+        self.p.stdin.flush()
+        line = self.p.stdout.readline().rstrip('\n')
+        if line.startswith('NONDETERMINISM') or not line:
+            raise RuntimeError(f'copy peer: {line or "died"} on {req}')
+        f = line.split('\t')
+        choices = []
+        if f[4] != '-':
+            for c in f[4].split(';'):
+                if c:
+                    lab, n, ch, kind = c.rsplit(':', 3)
+                    choices.append((lab, int(n), int(ch), kind))
+        return {'raw': f[0], 'ret': int(f[1]), 'A': f[2], 'B': f[3], 'choices': choices, 'esc': f[5], 'ledger': f[6],
+                'qA': int(f[7]), 'qB': int(f[8]), 'pend': int(f[9]), 'dA': f[10], 'dB': f[11], 'leak': f[12] if len(f) > 12 else '-'}
+
+    def close(self):
+        try:
+            self.p.stdin.write('QUIT\n')
+            self.p.stdin.flush()
+            self.p.wait(timeout=5)
+        except Exception:
+            self.p.kill()
+
+
+def _serial_of_step(hist, idx):
+    """serial the driver allocates for step idx (pe/eq allocate one each, in order)"""
+    s = 0
+    for i, (op, ev, lm) in enumerate(hist[:idx + 1]):
+        if op.rstrip('B') in ('pe', 'eq'):
+            s += 1
+    return s
+
+
+def _retag(raw, frm, to, smap):
+    """instance tags and driver serials of a trace mapped for comparison"""
+    out = []
+    if raw == '-':
+        return out
+    for t in raw.split(' '):
+        f = t.split(':')
+        if len(f) > 3 and '#' in f[3]:
+            e, s = f[3].split('#')
+            s2 = s.split('!')[0]
+            if int(s2) in smap:
+                f[3] = e + '#' + str(smap[int(s2)]) + s[len(s2):]
+        if f[-1] == 'I' + frm:
+            f[-1] = 'I' + to
+        out.append(':'.join(f))
+    return out
+
+
+def copy_job(job):
+    pid, sl, cfg, tier, idx = job
+    t0 = time.time()
+    out = {'zoo': sl['zoo'], 'cfg': cfg, 'findings': [], 'stats': collections.Counter(), 'samples': []}
+    peer = None
+    try:
+        ser = sl.get('serialize', False)
+        if ser:
+            exe = vbuild.build_one(sl['zoo'], cfg, ('-DVF_SERIALIZE',), '_ser', ('-lboost_serialization',))
+        else:
+            exe = vbuild.build_one(sl['zoo'], cfg)
+        peer = CopyPeer(exe)
+        z_ = zoomod.ZOO[sl['zoo']]
+        own_sids = {m.own_sid for m in z_.machines()}
+        pre_ops = [(o.split(':')[0], int(o.split(':')[1]) if ':' in o else 0) for o in sl['pre_ops']]
+        cont_ops = [(o.split(':')[0], int(o.split(':')[1]) if ':' in o else 0) for o in sl['cont_ops']]
+        L = sl.get('cont_len', 2)
+        qbound = sl.get('qbound', 2)
+        guards = sl.get('guards', 1)
+        is_mp11 = cfg in ('m', 'mf', 'mc')
+        copy_ops = ['svt', 'svb'] if ser else ['cc', 'ca'] + (['mvc', 'mva'] if is_mp11 else [])
+
+        def answers(hist_prefix, op):
+            """all label maps for the last step (DFS over the answers the implementation asks for)"""
+            res = []
+            seen = set()
+            stack = [{}]
+            while stack:
+                lm = stack.pop()
+                k = frozenset(lm.items())
+                if k in seen:
+                    continue
+                seen.add(k)
+                r = peer.run(hist_prefix + [(op[0], op[1], lm)])
+                asked = {lab: (n, kind) for lab, n, ch, kind in r['choices']}
+                if {kk: v for kk, v in lm.items() if kk in asked} != lm:
+                    continue
+                res.append((lm, r))
+                if sum(1 for kk in lm) >= guards:
+                    continue
+                for lab, (n, kind) in asked.items():
+                    if lab not in lm:
+                        for alt in range(1, n):
+                            lm2 = dict(lm)
+                            lm2[lab] = alt
+                            stack.append(lm2)
+            return res
+
+        # ---- phase 1: copy points = all reachable states of the original (with <= qbound queued events)
+        init = peer.run([])
+        seenA = {init['A']: []}
+        frontier = collections.deque([([], init)])
+        started = {init['A']: False}
+        while frontier:
+            hist, st = frontier.popleft()
+            for op in pre_ops:
+                if op[0] == 'start' and started[st['A']]:
+                    continue
+                if op[0] != 'start' and not started[st['A']]:
+                    continue
+                if op[0] in ('eq', 'pe') and st['pend'] >= qbound:
+                    continue
+                for lm, r in answers(hist, op):
+                    out['stats']['pre_executions'] += 1
+                    if r['A'] not in seenA:
+                        h2 = hist + [(op[0], op[1], lm)]
+                        seenA[r['A']] = h2
+                        started[r['A']] = started[st['A']] or op[0] == 'start'
+                        frontier.append((h2, r))
+        out['stats']['copy_points'] = len(seenA)
+
+        cur = {'pend': 0}
+
+        def finding(kind, msg, hist):
+            out['stats']['divergent'] += 1
+            if len(out['findings']) < 4000:
+                out['findings'].append({'kind': kind, 'msg': msg, 'history': [(o, e, dict(l)) for o, e, l in hist], 'pending_at_copy': cur['pend']})
+
+        # ---- phase 2: every copy point x copy operation x continuation pairs
+        for canonA, P in seenA.items():
+            if not started[canonA]:
+                continue
+            cur['pend'] = peer.run(P)['pend'] if P else 0
+            for cop in copy_ops:
+                base = P + [(cop, 0, {})]
+                r0 = peer.run(base)
+                out['stats']['copies'] += 1
+                moved = cop in ('mvc', 'mva')
+                if r0['B'] != canonA.replace('', '') and r0['B'] != canonA:
+                    finding('copy-state', f'{cop}: the copy is in state [{r0["B"]}] but the original was in [{canonA}]', base)
+                if not moved and r0['A'] != canonA:
+                    finding('original-changed', f'{cop}: taking the copy changed the original: [{canonA}] -> [{r0["A"]}]', base)
+                da = dict(kv.split('=') for kv in r0['dA'].split(',') if kv) if r0['dA'] != '-' else {}
+                db = dict(kv.split('=') for kv in r0['dB'].split(',') if kv) if r0['dB'] != '-' else {}
+                if ser:
+                    rp = peer.run(P)
+                    da = dict(kv.split('=') for kv in rp['dA'].split(',') if kv)
+                    exp = {k: (v if (int(k) % 2 == 1 or int(k) in own_sids) else '0') for k, v in da.items()}
+                    if db != exp:
+                        finding('state-data', f'{cop}: data of the loaded machine {db}, expected {exp} (do_serialize states and front-ends restored, the rest freshly constructed)', base)
+                elif not moved and db != da:
+                    finding('state-data', f'{cop}: state / front-end data of the copy {db} differs from the original {da}', base)
+                if r0['raw'] != '-':
+                    finding('copy-behaviour', f'{cop} invoked behaviours: {r0["raw"][:300]}', base)
+                if r0['esc'] != '-':
+                    finding('escaped', f'{cop} threw {r0["esc"]}', base)
+                # continuation sequences (interleavings of operations on A and on B)
+                level = [(base, r0, [], [])]     # (history, last reply, ops applied to A since copy, ops applied to B)
+                for depth in range(L):
+                    nxt = []
+                    for hist, rprev, opsA, opsB in level:
+                        targets = ['B'] if moved else ['A', 'B']
+                        extra = []
+                        if moved and depth == 0:
+                            extra = [('dA', 0), ('asA', 0)]
+                        for tgt in targets:
+                            for op in cont_ops:
+                                q = rprev['qA'] if tgt == 'A' else rprev['qB']
+                                if op[0] == 'eq' and q >= qbound:
+                                    continue
+                                if op[0] == 'xs' and q == 0:
+                                    continue
+                                opn = op[0] + ('B' if tgt == 'B' else '')
+                                for lm, r in answers(hist, (opn, op[1])):
+                                    out['stats']['continuations'] += 1
+                                    h2 = hist + [(opn, op[1], lm)]
+                                    # reference: the original rebuilt by replay, driven with the same operations
+                                    mine = (opsA if tgt == 'A' else opsB) + [(op[0], op[1], lm)]
+                                    sH = _serial_of_step(h2, len(h2) - 1)
+                                    ref_hist = list(P)
+                                    smapH2R = {}
+                                    # serials of the earlier operations of this target, then this one
+                                    for j, (o_, e_, l_) in enumerate(mine):
+                                        ref_hist.append((o_, e_, l_))
+                                    sR = _serial_of_step(ref_hist, len(ref_hist) - 1)
+                                    if op[0] in ('pe', 'eq'):
+                                        smapH2R[sH] = sR
+                                    # answers are keyed by labels that contain the driver's serial
+                                    lmR = {}
+                                    for kk, v in lm.items():
+                                        parts = kk.split('.')
+                                        parts = [str(smapH2R.get(int(x), int(x))) if x.lstrip('-').isdigit() and i_ >= 1 and int(x) == sH and sH in smapH2R else x for i_, x in enumerate(parts)]
+                                        lmR['.'.join(parts)] = v
+                                    ref_hist[-1] = (op[0], op[1], lmR)
+                                    rr = peer.run(ref_hist)
+                                    got = _retag(r['raw'], 'b' if tgt == 'B' else 'a', 'a', smapH2R)
+                                    exp = _retag(rr['raw'], 'a', 'a', {})
+                                    wrong_inst = [t for t in r['raw'].split(' ') if t != '-' and t.split(':')[-1].startswith('I') and t.split(':')[-1] != ('Ib' if tgt == 'B' else 'Ia')]
+                                    if wrong_inst:
+                                        finding('foreign-behaviour', f'driving the {"copy" if tgt == "B" else "original"} invoked behaviours of the other machine: {" ".join(wrong_inst[:4])}', h2)
+                                    elif got != exp:
+                                        finding('copy-diverges', f'{"copy" if tgt == "B" else "original"} reacted [{" ".join(got)[:400]}], the original rebuilt by replay reacts [{" ".join(exp)[:400]}]', h2)
+                                    elif (r['B'] if tgt == 'B' else r['A']) != rr['A']:
+                                        finding('copy-state-diverges', f'state after the operation [{r["B"] if tgt == "B" else r["A"]}] vs rebuilt original [{rr["A"]}]', h2)
+                                    other_before = rprev['A'] if tgt == 'B' else rprev['B']
+                                    other_after = r['A'] if tgt == 'B' else r['B']
+                                    if other_before != other_after and not wrong_inst and not (moved and tgt == 'B'):
+                                        finding('other-machine-changed', f'driving one machine changed the other: [{other_before}] -> [{other_after}]', h2)
+                                    if r['esc'] != '-':
+                                        finding('escaped', f'{r["esc"]}', h2)
+                                    if r['leak'] != '-':
+                                        finding('event-leak', f'event copies alive after both machines were destroyed: {r["leak"]}', h2)
+                                    if len(out['samples']) < 2 and r['raw'] != '-':
+                                        out['samples'].append({'machine': sl['zoo'], 'cfg': cfg, 'history': [(o_, e_, dict(l_)) for o_, e_, l_ in h2], 'trace': r['raw'][:300]})
+                                    nxt.append((h2, r, opsA + ([(op[0], op[1], lm)] if tgt == 'A' else []), opsB + ([(op[0], op[1], lm)] if tgt == 'B' else [])))
+                        for eop in extra:
+                            h2 = hist + [(eop[0], 0, {})]
+                            r = peer.run(h2)
+                            out['stats']['moved_from_ops'] += 1
+                            if r['esc'] != '-':
+                                finding('moved-from', f'{eop[0]} on the moved-from machine threw {r["esc"]}', h2)
+                            if eop[0] == 'asA' and r['A'] != r['B']:
+                                finding('moved-from', f'assigning to the moved-from machine gives [{r["A"]}] instead of [{r["B"]}]', h2)
+                    level = nxt
+    except Exception as e:
+        out['error'] = repr(e) + '\n' + traceback.format_exc()
+    finally:
+        if peer:
+            peer.close()
+    out['stats'] = dict(out['stats'])
+    out['wall'] = time.time() - t0
+    return out
+
+
+def run_copy(pid, tier):
+    spec = propsmod.PROPS[pid]
+    t0 = time.time()
+    slices = spec.get(tier) or spec['quick']
+    jobs = []
+    pairs = set()
+    for i, sl in enumerate(slices):
+        for cfg in sl['cfgs']:
+            jobs.append((pid, sl, cfg, tier, i))
+            if sl.get('serialize'):
+                pairs.add((sl['zoo'], cfg, ('-DVF_SERIALIZE',), '_ser', ('-lboost_serialization',)))
+            else:
+                pairs.add((sl['zoo'], cfg))
+    vbuild.build_many(sorted(pairs))
+    rdir = os.path.join(VERIF, 'evidence', 'replays')
+    os.makedirs(rdir, exist_ok=True)
+    import glob
+    for old in glob.glob(os.path.join(rdir, f'{pid}-*.json')):
+        os.remove(old)
+    with ProcessPoolExecutor(max_workers=16) as ex:
+        results = list(ex.map(copy_job, jobs))
+    errs = [r for r in results if 'error' in r]
+    if errs:
+        for r in errs:
+            print(f'ERROR in copy slice {r["zoo"]}/{r["cfg"]}: {r["error"]}', file=sys.stderr)
+        return 2
+    kf = known.load()
+    nviol = 0
+    reported = 0
+    known_seen = collections.Counter()
+    known_what = {}
+    for r in results:
+        z = zoomod.ZOO[r['zoo']]
+        shown = 0
+        extra = r['stats'].get('divergent', 0) - len(r['findings'])
+        for f in r['findings']:
+            v = {'property': pid, 'machine': r['zoo'], 'cfg': r['cfg'], 'kind': f['kind'], 'msg': f['msg'], 'history': f['history'], 'copymode': True, 'model_flags': [], 'pending_at_copy': f['pending_at_copy']}
+            k = known.match(kf, v, z)
+            if k is not None:
+                known_seen[k['id']] += 1
+                known_what[k['id']] = k['what']
+                continue
+            nviol += 1
+            if shown < MAX_REPORTED:
+                shown += 1
+                reported += 1
+                path = os.path.join(rdir, f'{pid}-{r["zoo"]}-{r["cfg"]}-{reported}.json')
+                with open(path, 'w') as fh:
+                    json.dump(v, fh, indent=1)
+                print(f'VIOLATION property={pid} replay={path}')
+                print(f'  {r["zoo"]}/{r["cfg"]} {f["kind"]}: {f["msg"][:500]}')
+        del extra
+    for k in sorted(known_seen):
+        print(f'KNOWN-FINDING: property={pid} {known_what[k]} [{k}; {known_seen[k]} executions]')
+    conts = sum(r['stats'].get('continuations', 0) for r in results)
+    samples = []
+    for r in results:
+        samples.extend(r['samples'][:1])
+    ev = {
+        'property_id': pid, 'tier': tier, 'seed': int(os.environ.get('VERIF_SEED', '0')), 'level': spec['level'],
+        'coverage': {
+            'states': sum(r['stats'].get('copy_points', 0) for r in results), 'transitions': conts,
+            'traces_validated_against_impl': conts, 'evaluations': conts + sum(r['stats'].get('copies', 0) for r in results),
+            'distinct_nontrivial': conts, 'rule': spec['rule'], 'samples': samples[:6], 'exhaustive': True,
+            'per_slice': [{'zoo': r['zoo'], 'cfg': r['cfg'], 'wall': round(r['wall'], 2), 'stats': r['stats']} for r in results],
+            'known_findings_matched': dict(known_seen),
+        },
+        'assumptions': ['copy from a const reference; the reference behaviour is the original machine rebuilt by replaying the same history without the copy',
+                        'callbacks are attributed to a machine object by the address of the Fsm argument'],
+        'wall_s': round(time.time() - t0, 2), 'violations': nviol,
+    }
+    with open(os.path.join(VERIF, 'evidence', f'{pid}.json'), 'w') as fh:
+        json.dump(ev, fh, indent=1)
+    print(f'{pid} {tier}: copy points={ev["coverage"]["states"]} continuations={conts} violations={nviol} known={sum(known_seen.values())} wall={ev["wall_s"]}s')
+    return 1 if nviol else 0
+
+
+RUNNERS['copy'] = run_copy
